@@ -28,8 +28,8 @@ def run(ctx, R):
     srcs = [c for c in M.subclasses(so) if c.module.name == 'streamz.sources']
     notes = [c for c in M.classes if c.module.name == 'streamz.dataframe.core' and c.name == 'PeriodicDataFrame']
     notes += [M.cls('streamz.core', 'map_async')]
-    lifecycle.check_single_flight(ctx, R, srcs, note_classes=notes)
-    lifecycle.check_idempotent_guard(ctx, R, srcs, note_classes=notes)
+    R.run(lifecycle.check_single_flight, ctx, R, srcs, note_classes=notes)
+    R.run(lifecycle.check_idempotent_guard, ctx, R, srcs, note_classes=notes)
     funcs = []
     for c in srcs:
         for f in c.methods.values():
@@ -37,9 +37,9 @@ def run(ctx, R):
         for f in c.module.all_funcs:
             if f.parent is not None and f.cls is not None and f.cls.name in ('EmitServer', 'Handler') and f not in [x[1] for x in funcs]:
                 funcs.append((f.cls, f))
-    lifecycle.check_stop_check(ctx, R, funcs)
-    lifecycle.check_iterable_order(ctx, R)
-    flow.check_propagate(ctx, R, modules=('streamz.sources',), note_modules=())
+    R.run(lifecycle.check_stop_check, ctx, R, funcs)
+    R.run(lifecycle.check_iterable_order, ctx, R)
+    R.run(flow.check_propagate, ctx, R, modules=('streamz.sources',), note_modules=())
 
 
 META['level'] += " SINGLE-FLIGHT also requires the flag to be claimed synchronously with its test and the wrapper to await the activity under isawaitable(); STOP-CHECK requires the flag to be read before a cycle's first effect."
